@@ -14,10 +14,10 @@ TOL = 1e-4
 def profile(family, big=False):
     if family == '1d':
         return ng.Profile(family='1d', pads=('causal', 'causal', 'causal', 'none'),
-                          standalone_bn=False, exclude=True, reuse=False, multi_input=True,
+                          standalone_bn=False, exclude=True, reuse=False, multi_input=True, fixtures=True,
                           max_blocks=6 if big else 4, kmax=12 if big else 9, min_blocks=2)
     return ng.Profile(family='2d', standalone_bn=False, exclude=True, reuse=False,
-                      multi_input=True, max_blocks=6 if big else 4, min_blocks=2, bridge=True,
+                      multi_input=True, fixtures=True, max_blocks=6 if big else 4, min_blocks=2, bridge=True,
                       pads=('causal', 'causal', 'none'))
 
 
@@ -118,10 +118,15 @@ def oracle(case) -> Result:
                 res.bad('exported-dilation', layer=nid, exported=gd, summary=s['dilation'],
                         reference=d_opt)
             if n['pad'] in ('causal', 'none'):
-                pm = exported.get_submodule(name + '_pad')
+                # the padding in front of the exported layer: the (rewritten) ConstantPad1d the
+                # export places / keeps there; no such module = nothing is padded
+                try:
+                    got_pad = tuple(exported.get_submodule(name + '_pad').padding)
+                except AttributeError:
+                    got_pad = (0, 0)
                 want_pad = (k_opt - 1) * gd[0]
-                if tuple(pm.padding) != (want_pad, 0):
-                    res.bad('exported-padding', layer=nid, got=list(pm.padding), want=want_pad)
+                if got_pad != (want_pad, 0):
+                    res.bad('exported-padding', layer=nid, got=list(got_pad), want=want_pad)
 
     pr = mk.n_pruned(spec, masks, fixed)
     varied = bool(y_pit.numel() > 1 and float(y_pit.std()) > 1e-7)
